@@ -1,6 +1,7 @@
 import OhkamiModel.Drv.C01
 import OhkamiModel.Drv.C02
 import OhkamiModel.Drv.C03
+import OhkamiModel.Drv.C05
 import OhkamiModel.Drv.C09
 import OhkamiModel.Drv.C12
 import OhkamiModel.Drv.C13
@@ -26,6 +27,7 @@ def main (args : List String) : IO UInt32 := do
   | ["C01"] | ["C04"] => loop stdin DrvC01.runCase; return 0
   | ["C02"] => loop stdin DrvC02.runCase; return 0
   | ["C03"] => loop stdin DrvC03.runCase; return 0
+  | ["C05"] | ["C06"] => loop stdin DrvC05.runCase; return 0
   | ["C09"] => loop stdin DrvC09.runCase; return 0
   | ["C12"] => loop stdin DrvC12.runCase; return 0
   | ["C13"] => loop stdin DrvC13.runCase; return 0
